@@ -200,7 +200,8 @@ impl<C: Suite> Model for M20<C> {
     }
     fn init(&self) -> Vec<St> {
         let mut v = vec![St::History(vec![])];
-        let n = if self.tier.thorough() { 4096 } else { 256 };
+        // more than 256 / 512 calls per entry point: a pool or counter that wraps after 2^8 draws is seen
+        let n = if self.tier.thorough() { 4200 } else { 600 };
         for op in 0..OPS.len() {
             v.push(St::Free { op, n });
             v.push(St::Processes { op });
